@@ -42,11 +42,20 @@ def bitat(data, rowbytes, u, v):
     return (data[v * rowbytes + u // 8] >> (7 - (u % 8))) & 1
 
 
+COLOUR_RULE = "spec"
+
+
 def rich_of(cur, fmt):
+    """pixels of a cursor; for an X-style cursor (bitmap + 16-bit colours) by the SPECIFICATION: a component comp is
+    the intensity comp/65535, i.e. the channel value max*comp//65535 (CursorColour.v) - not the library's expression.
+    COLOUR_RULE == "unscaled" (the library before notes/fix_C15_5.diff: comp << shift) is used only to CLASSIFY a
+    failure as the known finding F15e, never to accept an output."""
     if cur.rich is not None:
         return cur.rich
     bpp, rm, gm, bm, rs, gs, bs = fmt
     def word(c):
+        if COLOUR_RULE == "spec":
+            return (((rm * c[0] // 65535) << rs) | ((gm * c[1] // 65535) << gs) | ((bm * c[2] // 65535) << bs)) % (1 << (8 * bpp))
         return ((((c[0] << rs) & 0xffffffff) | ((c[1] << gs) & 0xffffffff) | ((c[2] << bs) & 0xffffffff))) % (1 << (8 * bpp))
     fore, back = word(cur.fore), word(cur.back)
     rb = (cur.w + 7) // 8
@@ -161,14 +170,22 @@ def newfb_line(rng, W, H, bpp, bps):
     return "newfb %d " % bps + " ".join("%x" % rng.randint(0, pm) for _ in range(W * H))
 
 
+def stride_line(rng, bpp):
+    """in a third of the cases the rows of the framebuffer are further apart than width*bytesPerPixel
+    (screen->paddedWidthInBytes): cursor.c must step by the row stride and never touch the padding"""
+    if rng.random() < 0.35:
+        return ["stride %d" % rng.choice([1, 2, 3, bpp, bpp + 1, 4 * bpp, 16, 29])]
+    return []
+
+
 def direct_case(rng, k):
     fmt = rng.choice(FORMATS)
     bpp = fmt[0]
     W, H = rng.choice([1, 2, 3, 5, 8, 9, 13]), rng.choice([1, 2, 3, 4, 7, 10])
     pm = (1 << (8 * bpp)) - 1
     fb = [[rng.randint(0, pm) for _ in range(W)] for _ in range(H)]
-    L = ["case %d direct" % k, "screen %d %d %d %d %d %d %d %d %d" % ((W, H) + fmt),
-         "fb " + " ".join("%x" % p for r in fb for p in r)]
+    L = ["case %d direct" % k, "screen %d %d %d %d %d %d %d %d %d" % ((W, H) + fmt)] + stride_line(rng, bpp) + \
+        ["fb " + " ".join("%x" % p for r in fb for p in r)]
     for _ in range(rng.choice([1, 1, 2])):
         cur = rand_cursor(rng, fmt)
         L += cur.lines() + ["setcur"]
@@ -201,8 +218,8 @@ def session_case(rng, k, flavour=None):
     pm = (1 << (8 * bpp)) - 1
     fb = [[rng.randint(0, pm) for _ in range(W)] for _ in range(H)]
     flavour = flavour or rng.choice(["soft", "soft", "mixed", "mixed", "partial", "switch", "fail", "hook", "hook", "newfb", "newfb"])
-    L = ["case %d session %s" % (k, flavour), "screen %d %d %d %d %d %d %d %d %d" % ((W, H) + fmt),
-         "fb " + " ".join("%x" % p for r in fb for p in r)]
+    L = ["case %d session %s" % (k, flavour), "screen %d %d %d %d %d %d %d %d %d" % ((W, H) + fmt)] + \
+        stride_line(rng, fmt[0]) + ["fb " + " ".join("%x" % p for r in fb for p in r)]
     def small_cursor():
         c = rand_cursor(rng, fmt, "x" if flavour == "newfb" and rng.random() < 0.8 else None)
         return c
@@ -324,8 +341,8 @@ def sweep_case(rng, k, W, H, cw, ch, xh, yh):
     cur.src = [rng.randint(0, 255) for _ in range(rb * ch)]
     cur.rich = None if cur.alpha is None and rng.random() < 0.5 else [rng.randint(0, pm) for _ in range(cw * ch)]
     cur.alpha = None if cur.alpha is None else [rng.choice([0, 1, 128, 255]) for _ in range(cw * ch)]
-    L = ["case %d sweep" % k, "screen %d %d %d %d %d %d %d %d %d" % ((W, H) + fmt),
-         "fb " + " ".join("%x" % p for r in fb for p in r)] + cur.lines() + ["setcur"]
+    L = ["case %d sweep" % k, "screen %d %d %d %d %d %d %d %d %d" % ((W, H) + fmt)] + stride_line(rng, fmt[0]) + \
+        ["fb " + " ".join("%x" % p for r in fb for p in r)] + cur.lines() + ["setcur"]
     for py in range(0, H + ch + 1):
         for px in range(0, W + cw + 1):
             L += ["pos %d %d" % (px, py), "show", "hide"]
@@ -398,7 +415,7 @@ class CaseState:
     pass
 
 
-def oracle_case(script, impl, crash=None):
+def _oracle_case(script, impl, crash=None):
     """evaluate the property predicate on the implementation's observations of one case.
     returns list of (message, features)"""
     errs = []
@@ -426,6 +443,10 @@ def oracle_case(script, impl, crash=None):
                 feat["defcur"] = True
             errs.append(("implementation produced no observation for '%s' (crash%s)" % (op, ": " + crash[1][:200] if crash else "?"), feat))
             return errs
+        if "PADDAMAGED" in line:
+            errs.append(("'%s' wrote into the padding between the rows of the framebuffer (paddedWidthInBytes > width*bpp)" % op,
+                         {"kind": "padding", "op": p[0]}))
+            line = line.replace(" PADDAMAGED", "")
         if p[0] == "screen":
             st.W, st.H = int(p[1]), int(p[2])
             st.fmt = tuple(int(t) for t in p[3:10])
@@ -549,6 +570,37 @@ def oracle_case(script, impl, crash=None):
             for (_, f) in errs:
                 f["defcur"] = True
     return errs
+
+
+def oracle_case(script, impl, crash=None):
+    """the property predicate; failures that exist only because X-cursor colours are shifted unscaled (F15e) are
+    re-labelled kind=rich_colour so that they are reported as that one finding"""
+    global COLOUR_RULE
+    COLOUR_RULE = "spec"
+    errs = _oracle_case(script, impl, crash)
+    if not errs:
+        return errs
+    COLOUR_RULE = "unscaled"
+    try:
+        alt = _oracle_case(script, impl, crash)
+    except Exception:
+        alt = errs
+    finally:
+        COLOUR_RULE = "spec"
+    def key(f):
+        return tuple(sorted((k, str(v)) for k, v in f.items()))
+    left = {}
+    for (_, f) in alt:
+        left[key(f)] = left.get(key(f), 0) + 1
+    out = []
+    for (m, f) in errs:
+        if left.get(key(f), 0) > 0:
+            left[key(f)] -= 1
+            out.append((m, f))
+        else:
+            out.append((m + " [X-cursor colour: the library shifts the 16-bit component unscaled instead of max*comp/65535]",
+                        {"kind": "rich_colour", "what": "unscaled", "was": f.get("kind")}))
+    return out
 
 
 def parse_session_line(line):
